@@ -5,6 +5,7 @@
     TY("i8", int8_t) TY("u8", uint8_t) TY("i16", int16_t) TY("u16", uint16_t) TY("i32", int32_t) TY("u32", uint32_t)    \
     TY("i64", int64_t) TY("u64", uint64_t) TY("f32", float) TY("f64", double) TY("string", str)
 #include "old_impl.h"
+#include "hist_old.h"
 
 #ifndef C09_GEN_GOLDEN
 // igris::buffer / std::string_view: u16 length + bytes; decoded as a view into the input or into caller storage
@@ -48,12 +49,17 @@ static void buffer_run(uint64_t idx)
 }
 VF_SUITE(old_buffer, buffer_count, buffer_run)
 
+static uint64_t hist_count() { return vf::thorough() ? 20000 : 400; }
+VF_SUITE(old_history, hist_count, hist_old_run)
+
 void c09_new_setup();
 extern "C" void vf_setup()
 {
     for (const char *c : {"encoded bytes == reference encoder of the stated layout", "deserialize(serialize(v)) == v",
                           "reader cursor after decode == bytes produced", "enc(a) ++ enc(b) decodes to a then b, cursor after a == |enc(a)|",
-                          "values whose encoding exceeds 64 KiB", "the other entry points of the front end produce / accept the same bytes", "golden encoding still decodes to the recorded value",
+                          "values whose encoding exceeds 64 KiB", "after every step the long-lived writer holds the concatenation of the reference encodings",
+                          "view into the writer's own output (append must grow it) == u16 length + bytes",
+                          "the long-lived reader decodes the history in sequence; accessors between loads consume nothing", "the other entry points of the front end produce / accept the same bytes", "golden encoding still decodes to the recorded value",
                           "recorded value still encodes to the golden bytes", "igris::buffer / string_view encode as u16 length + bytes",
                           "igris::buffer decodes as a view into the input and into caller storage"})
         vf::require(c);
